@@ -27,6 +27,42 @@ class C19(Prop):
     def impl(self, case):
         return G.run_text_op(case)
 
+    def extra(self, ctx):
+        """generated files: changing only copyright / creator information changes nothing but comment lines"""
+        from harness import gen_build as GB
+        from harness.common import case_hash
+        rng, tier = ctx['rng'], ctx['tier']
+        n = 40 if tier == 'quick' else 1500
+        hostile = ['', 'Copyright (c) X', 'a\n\n  b  \n', '*/ int evil();', '#include <evil>\x0bint main(){}\x85x',
+                   'line1\rline2\r\nline3', '  \t ', 'trailing backslash \\', '\u2028x\u2029y', '// already']
+
+        def code(contents):
+            return [l for l in contents.splitlines() if l.strip() and not l.lstrip().startswith('//')]
+        failures, shapes = [], []
+        evals = 0
+        for _ in range(n):
+            c = GB.gen_case(rng)
+            a = {k: v for k, v in c.items() if k != '_info'}
+            b = __import__('json').loads(__import__('json').dumps(a))
+            b['cfg']['copyright'] = rng.choice(hostile)
+            b['cfg']['creator'] = rng.choice(hostile + [None])
+            ra, rb = GB.build_impl(a), GB.build_impl(b)
+            evals += 1
+            shapes.append(case_hash([a['ast'], a['cfg'], b['cfg']['copyright'], b['cfg']['creator']]))
+            if 'ok' not in ra or 'ok' not in rb:
+                if ('ok' in ra) != ('ok' in rb):
+                    failures.append({'case': b, 'impl': {'a': ra.get('err', 'ok'), 'b': rb.get('err', 'ok')}, 'model': None,
+                                     'failed': ['copyright/creator text changes the outcome of the build'], 'noshrink': True})
+                continue
+            for fa, fb in zip(ra['ok']['files'], rb['ok']['files']):
+                if fa['name'] != fb['name'] or code(fa['contents']) != code(fb['contents']):
+                    failures.append({'case': b, 'impl': {'file': fa['name'], 'code_a': code(fa['contents'])[:5], 'code_b': code(fb['contents'])[:5]},
+                                     'model': None, 'failed': ['copyright/creator text changed non-comment lines of ' + fa['name']],
+                                     'noshrink': True})
+                    break
+        return {'failures': failures, 'disagreements': [], 'evaluations': evals, 'shapes': shapes,
+                'coverage': {'build_pairs': evals}}
+
     def shape(self, case, impl_out):
         s = canon(case)
         return s if any(b in s for b in ['\\n', '\\r', '\\u', '{"l"', '#', '*/', '\\\\']) else None
